@@ -136,7 +136,7 @@ PLAN['C04'] = {
     'technique': 'contract-based deductive verification (Verus) of VmData::simplify/VmWorkspace on real text, through the proved contract of RegisterAllocator::op; Kani full-domain harnesses for the trace hypothesis; bounded native contract runner for value preservation and JIT traces',
     'level_text': 'S1 proved unbounded: for every well-formed parent tape, every trace of the right length without Unknown, every register budget M in 3..=255 and any previous workspace contents, simplify cannot panic (all 26 unwrap/assert/panic sites, 11 overflow and 8 index obligations, and the allocator preconditions call by call) and preserves vars and the output count; the hypothesis `a decided choice is valid at every point of the box` is proved for all f32/intervals by Kani. S3 proved unbounded at the SSA level: whenever the trace is valid for the parent run (the value of every decided clause is bit for bit that of the selected operand), the simplified SSA tape yields exactly the outputs of the parent from any initial environment (simulation invariant `ssim`, one semantic transition lemma per kind of arm, all 51 arms). The bounded contract simplify_sem additionally runs real traces from all four tracing evaluators through simplify and compares values natively.',
     'level_note': 'Trusted: Verus+Z3, Kani/CBMC, extractor rewrite rules (R-orpat, R-iter, R-revnext, R-constdefault, ...). Assumed: parent tape is strict SSA (established by SsaTape::new: bounded leg flatten) and choice_count equals the number of choice clauses. Proved in unit vm: the VM tracing evaluators record exactly the per-clause choice of each clause, in tape order. Not mechanised: the lifting of the per-clause validity (Kani) through the proved run equation to the SSA-level hypothesis tp (needs the order-preservation of RegTape::new, which is not exported by unit alloc); bounded: simplify_sem runs real traces end to end. JIT traces bounded, (the register tape of the simplified function is proved to compute its SSA tape for the new budget M, from any initial register/memory contents, by the same simulation argument as RegTape::new).',
-    'legs': [leg_verus('alloc'), leg_verus('simplify'), leg_verus('vm'), leg_kani('leaf'), leg_bounded('simplify_sem'), leg_bounded('jit_trace'), leg_bounded('render_handle')],
+    'legs': [leg_verus('alloc'), leg_verus('simplify'), leg_verus('vm'), leg_verus('handle'), leg_kani('leaf'), leg_bounded('simplify_sem'), leg_bounded('jit_trace'), leg_bounded('render_handle')],
     'explanation': 'Loop invariant sinv (P1, COV, INJ, P3, Q of DESIGN.md B.3) over (bind, count, allocator allocations, ops, k) plus the LEN equation ops_out.len + live == outputs + count; one transition lemma per kind of arm (skip, alias, emit with 0/1/2 renamed arguments, output); the 51 arms of the loop body are verified in 13 path-partitioned runs.',
     'assumptions': ['ssa_strict(parent tape) and choice_count == #choice clauses (SsaTape::new contract, bounded leg of C01)',
                     'the trace hypothesis tp (a decided choice selects an operand whose value equals the clause value bit for bit) is proved per clause by Kani and enumerated per tape by trace_vm/jit_trace; known findings: signed zero into Mix/Rand and NaN corners dropped by interval mul make an interval trace invalid at some points (known_findings.json)'],
@@ -212,11 +212,11 @@ PLAN['C06'] = {
     'technique': 'contract-based deductive verification (Verus) of the per-tile recursion of the 2D renderer - Worker::render_tile_recurse and Worker::render_tile_pixels of fidget-raster/src/pixel.rs and the tile helpers Tile::{new, add}, TileSizesRef::{index, get, pixel_offset} of fidget-raster/src/lib.rs - on their real text, generic over the Function, with the three component properties the renderer composes (interval enclosure, simplification, bulk evaluation through the shape wrappers) as stated contracts of trusted stand-ins; bounded native contract runner (render vs per-pixel Context::eval) for the whole pipeline',
     'level_text': 'Partial. Proved unbounded (unit raster; every tile-size list TileSizes::new accepts with root tile <= 4096, every depth, every tile position inside a root tile, every previous image content, pixel-perfect or not): after render_tile_recurse EVERY pixel of the tile holds the value of the ORIGINAL shape function at that pixel\'s sample position, or (unless pixel-perfect) a fill whose inside flag is the sign of that value, and NO pixel outside the tile is written; so skipping whole tiles on interval evidence and evaluating simplified tapes inside tiles is unobservable, given the three hypotheses below. No panic in the recursion (indices, unreachable!() arms, usize arithmetic). Also proved (same unit, function `render` of pixel.rs with Image::{new, width, height, decode_position} of lib.rs on their real text): the assembly of the root tiles into the image - every pixel (x, y) of the returned image holds the value of the shape at (x, y) or a correctly signed fill, given that render_tiles returns one worker output per root tile of the image (stand-in with exactly the postcondition proved for the recursion at depth 0); no out-of-range image access (the two assertions of decode_position). NOT proved: the hypotheses themselves at this call site (they are the claimed properties C03+C14, C04, C01/C02+C14, each with its own check), render_tiles (tile generation, rayon workers), Worker::new / render_tile, TileSizesRef::new (iterator position), the RawDistancePixel bit packing, the screen-to-world matrix: bounded contract render2d only (all of these run natively there, every pixel compared with Context::eval).',
     'level_note': 'Trusted: Verus+Z3; the stand-ins of unit raster (ShapeTracingEval / ShapeBulkEval / RenderHandle contracts = the assumed component properties; nalgebra Point2/Vector2 as two-field structs; Image as its data vector; fill_range as a verified model of slicing + fill); six float axioms (exact and monotone usize -> f32 conversion below 2^24, order chaining, comparison operators equal their specification).',
-    'legs': [leg_verus('raster'), leg_verus('tiles'), leg_bounded('render2d')],
+    'legs': [leg_verus('raster'), leg_verus('tiles'), leg_verus('handle'), leg_bounded('render2d')],
     'cex': ['render2d'],
     'explanation': 'The postcondition tile_ok / frame of the recursion is stated about the handle\'s original function; the recursion passes simplified handles down and the proof transfers their pixels back through the agreement hypothesis on the tile\'s own box (units/raster/__init__.py).',
     'assumptions': ['C03 + C14 at the call site: the sign decided by the interval result on the tile\'s box is the sign of the function at every pixel of the tile; a returned trace is valid on that box',
-                    'C04 at the call site: RenderHandle::simplify returns a function that agrees with its parent on the traced box, and the parent keeps its function (cached child handles)',
+                    'C04 at the call site: RenderHandle::simplify returns a function that agrees with its parent on the traced box, and the parent keeps its function (cached child handles) - the handle part is proved in unit handle (the returned handle evaluates the simplification of THIS handle for THIS trace, a cache hit needs an equal trace, the parent keeps its function and invariant); what the simplification of a shape is, is C04',
                     'C01/C02 + C14 at the call site: the bulk evaluator returns, per sample, the function at that sample',
                     'pixel coordinates below 2^24 (f32 conversion exact); z is a number',
                     'render_tiles (tile list, per-thread workers, cancellation): stand-in whose contract is one worker output per root tile of the image; TileSizesRef::new: stand-in returning a suffix of the tile-size list - proved in unit tiles (TileSizes::new accepts exactly the ordered, divisible lists; TileSizesRef::new returns the suffix starting at the root tile); NOT guaranteed by the code: the smallest size is >= 1 (TileSizes::new(&[0]) is Ok) and root tile <= 4096; usize is 64 bits'],
@@ -228,11 +228,11 @@ PLAN['C07'] = {
     'technique': 'contract-based deductive verification (Verus) of the 3D renderer of fidget-raster/src/voxel.rs on its real text - Worker::render_tile (z-descending slab loop with early termination), Worker::render_tile_recurse (early exit on filled pixels, interval fill / skip, simplification, z-descending recursion), Worker::render_tile_pixels (column collection, per-voxel evaluation, first-hit search, column compaction, gradient batch) and render (merge of the root tiles with the depth clamp) - generic over F: Function, the proof text woven line by line into the mechanically extracted and rewritten functions; the evaluator components as trusted stand-ins whose contracts are the claimed properties C03/C04/C05/C01/C02/C14; bounded native contract runner for the whole renderer against the brute-force heightmap',
     'level_text': 'Partial. Proved unbounded (unit voxel; every tile-size list TileSizes::new accepts with root tile <= 4096, every recursion depth and tile position, voxel coordinates below 2^24, grid depth >= 1, whatever the worker held before): for every pixel column of the image the reported pixel is the clamp to the grid depth of a pixel p with: p empty (depth 0) and no voxel of the column inside, or 1 <= p.depth <= Z (Z = top of the last slab of root tiles), the voxel p.depth - 1 is inside the ORIGINAL shape, p.normal is the gradient evaluation of the original shape at that voxel and no voxel between p.depth and Z is inside, or p.depth == Z + 1 and the voxel just above the slabs is inside (the case the property excludes); a column whose highest inside voxel is the top voxel of the grid or above is reported saturated (depth = grid depth, normal (0,0,1)), every other column exactly as found. Early termination (all pixels filled, slab loop break), the per-pixel occlusion skip, interval fills and simplified tapes are inside the proved functions, so they are unobservable by construction of the postcondition. No panic: the assertions `size > 0` and `depth < z`, every try_into().unwrap(), every index into the tile image and the scratch arrays (the get_unchecked_mut writes are checked as ordinary indexing: the SAFETY comment is discharged). ASSUMED, as contracts of stand-ins: interval enclosure on the tile box and validity of the returned trace (C03, C14); the simplified function agrees with its parent in value and in gradient evaluation on the traced box (C04, C05); the bulk evaluators return per sample the (gradient) evaluation of the function on that sample (C01/C02, C05, C14); render_tiles returns one worker output per root tile of the image (rayon workers: not under contract). Bounded only (render3d): the whole renderer against per-voxel Context::eval on 5 shapes x grid sizes x tile lists x transforms x VM/JIT x thread pools.',
     'level_note': 'Level other: the composition performed by the renderer is proved on its real text, relative to the component properties, which are claimed (and checked) separately. Trusted: Verus+Z3; the stand-ins of unit voxel (ShapeTracingEval / ShapeBulkEval / RenderHandle contracts; nalgebra Point2/Point3/Vector2/Vector3 as plain structs; Image as its data vector; Image::new, VoxelSize accessors, mem::take, slice prefix, From<u32> for VoxelSize as one-line stand-ins); float facts ax_cast_mono, ax_add_cast (voxel coordinates below 2^24 convert exactly and monotonically), ax_cmp; ax_px_default (the derived Default of GeometryPixel has depth 0); verified models of library idioms: find_neg (chunks + enumerate + find), div_ceil_u32; rewrite rules R-all, R-continue, R-revrange, R-unchecked, R-chunks-find, R-enumerate, R-prefix, R-pow, R-tryinto, R-cast, R-fadd, R-opcall, R-ptindex, R-imgindex, R-index, R-minmax, R-from, R-divceil, R-memtake, R-let, R-tail, R-iter-tuple, R-traitfn (each counted in the evidence); the line-by-line weaving of the proof template (difflib alignment: real lines are emitted, never template lines). Not covered: render_tiles, cancellation, TileSizesRef::new (stand-in: a suffix of the list), the effects of fidget-raster/src/effects.rs.',
-    'legs': [leg_verus('voxel'), leg_verus('tiles'), leg_bounded('render3d')],
+    'legs': [leg_verus('voxel'), leg_verus('tiles'), leg_verus('handle'), leg_bounded('render3d')],
     'cex': ['render3d'],
     'explanation': 'pv(f, p0, p1, ax, ay, cz, n, zl): the state of one pixel while the slab [cz, cz+n) is worked through from the top down to zl; lemma_pv_step composes a sub-slab below everything done so far (a fill below an already-looked-at sub-slab cannot raise the pixel: the voxel above it would have been found); vox_ok = pv at zl = cz is the postcondition of render_tile_recurse and, with cz = 0 and n = Z, of render_tile; lemma_vox_transfer moves the statement from the simplified function to the original one through agreement on the tile box; render_tile_pixels is proved with ghost maps from pixel numbers to collected columns and from columns to gradient samples (strictly increasing, so compaction never overwrites a column still to be read).',
     'assumptions': ['C03 + C14 at the call site: the sign decided by the interval result on the tile box is the sign of the function at every voxel of the slab and of the voxel row just above it; a returned trace is valid on that box',
-                    'C04 + C05 at the call site: RenderHandle::simplify returns a function that agrees with its parent, in value and in gradient evaluation, on the traced box',
+                    'C04 + C05 at the call site: RenderHandle::simplify returns a function that agrees with its parent, in value and in gradient evaluation, on the traced box - the handle part (cache keyed by the trace, tapes belong to the shape) is proved in unit handle; what the simplification of a shape is, is C04/C05',
                     'C01/C02/C05 + C14 at the call site: the float-slice and grad-slice evaluators return, per sample, the (gradient) evaluation of the function at that sample',
                     'voxel coordinates below 2^24 (f32 conversion exact), grid depth >= 1, usize is 64 bits, root tile <= 4096',
                     'render_tiles (tile list, per-thread workers, cancellation): stand-in whose contract is one Worker::render_tile output per root tile of the image; TileSizesRef::new: stand-in returning a suffix of the tile-size list - proved in unit tiles; NOT guaranteed by the code: the smallest size is >= 1 (TileSizes::new(&[0]) is Ok); Worker::new / Scratch::new: proved in unit voxel (they establish exactly the scratch sizes render_tile requires; cfg.mat() is a stand-in)'],
@@ -244,7 +244,7 @@ PLAN['C10'] = {
     'technique': 'contract-based deductive verification (Verus): RegisterAllocator::reset establishes exactly the abstract view of new (`fresh`), simplify\'s contract is independent of the previous workspace/tape contents, the allocator theorem holds from arbitrary initial slot contents; bounded native contract runner for evaluator/storage reuse',
     'level_text': 'Proved unbounded: reset(size, tape) yields the same complete abstract view as new(size) whatever the allocator held before (allocations, registers, LRU order, spare lists, empty tape, slot_count 0); VmWorkspace::reset likewise; simplify\'s proved postconditions mention neither old(workspace) nor the recycled tape; stale register/memory contents are unobservable because the C01 theorem is quantified over all initial slot contents. Evaluator objects, JIT Mmap reuse and Function::recycle are bounded stand-ins (all ordered pairs of 12 functions x 3 backends x 4 evaluator kinds).',
     'level_note': 'Trusted: Verus+Z3; assume_specification for slice::fill and mem::take; vstd specs of Vec::resize/clear. Proved in unit vm: TracingVmEval::resize_slots and BulkVmEval::resize_slots give slots/outputs/trace exactly the shape of the new tape whatever the evaluator held before, the trace is cleared to Unknown, and the results of the four VM eval functions are functions of the tape, the inputs and the (arbitrary) initial slot contents only. Proved in unit shape: the Shape-level wrappers ShapeTracingEval::eval_raw and ShapeBulkEval::eval_raw rebuild their argument vector / argument matrix (exactly max(#variables,1) rows of exactly n samples) from the current tape and inputs whatever the wrapper object held before. Bounded only: JIT storage growth, RenderHandle (contract render_handle: cached simplification keyed by trace, recycle into shared pools).',
-    'legs': [leg_verus('alloc'), leg_verus('simplify'), leg_verus('vm'), leg_verus('shape'), leg_verus('jit'), leg_bounded('reuse'), leg_bounded('shape_reuse'), leg_bounded('render_handle')],
+    'legs': [leg_verus('alloc'), leg_verus('simplify'), leg_verus('vm'), leg_verus('shape'), leg_verus('jit'), leg_verus('handle'), leg_bounded('reuse'), leg_bounded('shape_reuse'), leg_bounded('render_handle')],
     'explanation': 'reset == new on the view is the postcondition `fresh(size)` shared by both functions; see units/alloc/spec.py',
     'assumptions': ['JIT evaluator-object reuse and Function::recycle are enumerated, not proved'],
     'cex': ['reuse', 'shape_reuse'],
